@@ -19,23 +19,41 @@ CS_RND = T(
      dict(n=60, len=40, procs=4, cfg=CS_CFG_C)])
 # multi-message transactions (runs of one signer's messages delivered as one real transaction)
 bundled(CS_RND)
-CS_GEN = T([dict(cfg="GEN_Coinswap.cfg", num=10, depth=13, seeds=6)],
-           [dict(cfg="GEN_Coinswap.cfg", num=50, depth=16, seeds=14)])
+# second generator mode (negative probing): ordinary prefix with frequent plain sends of every kind of coin to the
+# escrows and pools on the odd coin, then a tail of messages the specification REJECTS - every message type, every
+# denom-valued field drawn from every kind of denom, every role - executed in the deep state reached
+CS_GEN = T([dict(cfg="GEN_Coinswap.cfg", num=10, depth=13, seeds=6),
+            dict(cfg="GEN_Coinswap_probe.cfg", num=4, depth=15, seeds=4)],
+           [dict(cfg="GEN_Coinswap.cfg", num=50, depth=16, seeds=14),
+            dict(cfg="GEN_Coinswap_probe.cfg", num=30, depth=18, seeds=10)])
 CS_SCN = [dict(file="scenarios/coinswap_F1.ndjson", cfg=CS_CFG_A + ",epilogue=0"),
           dict(file="scenarios/coinswap_zero_reserve.ndjson", cfg=CS_CFG_A + ",epilogue=0"),
           dict(file="scenarios/coinswap_edges.ndjson", cfg=CS_CFG_A + ",epilogue=0"),
-          dict(file="scenarios/coinswap_pools.ndjson", cfg=CS_CFG_A + ",epilogue=0")]
+          dict(file="scenarios/coinswap_pools.ndjson", cfg=CS_CFG_A + ",epilogue=0"),
+          # identifiers of the wrong kind in every denom-valued field, foreign coins / share tokens / odd coins sent
+          # to escrows, odd roles, emptied pools (with the epilogue: withdraw all, probe the emptied pools, re-fund)
+          dict(file="scenarios/coinswap_wrongkind.ndjson", cfg=CS_CFG_A)]
 # quick: C01 runs the one-pool universe (every reachable (S, T, L): the arithmetic), C02 that and the
 # two-pool universe (all behaviours of <= 5 events with third-party, blocked and module recipients: the routing);
 # thorough: the larger versions of both for both properties
 CS_MC_A = dict(cfg="MC_Coinswap.cfg", timeout=900, heap="4g")
 CS_MC_B = dict(cfg="MC_Coinswap2.cfg", timeout=900, heap="4g")
-CS_MC_BIG = [dict(cfg="MC_Coinswap_big.cfg", timeout=3000, heap="4g"), dict(cfg="MC_Coinswap2_big.cfg", timeout=3000, heap="4g")]
+# MC_Coinswap_wk: every denom-valued field of every message and every donation ranges over EVERY denom (standard,
+# token, odd coin "voucher-1", liquidity denoms, strange ones), a pool may be opened on the odd coin: all
+# behaviours of <= 5 events
+CS_MC_BIG = [dict(cfg="MC_Coinswap_big.cfg", timeout=3000, heap="4g"), dict(cfg="MC_Coinswap2_big.cfg", timeout=3000, heap="4g"),
+             dict(cfg="MC_Coinswap_wk.cfg", timeout=3000, heap="4g")]
 CS_MC_C01 = T([CS_MC_A], CS_MC_BIG)
 CS_MC_C02 = T([CS_MC_A, CS_MC_B], CS_MC_BIG)
 
 # histories recorded (VERIF_RECORD_DIR) for the cross-module checks C11 / C12
 RECORD = [dict(binary="coinswap", n=T(3, 12), len=30, cfg=CS_CFG_A + ",bundle=30")]
+
+# negative-probing antecedents; scenarios/coinswap_wrongkind.ndjson exercises each of them on every run
+CS_WK_C01 = ["donate_foreign", "donate_share", "donate_odd", "pool_on_odd", "foreign_in_escrow", "wk_adduni_held",
+             "wk_remuni_held", "wk_counterparty", "emptied_probe", "remuni_all_rej"]
+CS_WK_C02 = CS_WK_C01 + ["wk_remove_shaped", "wk_remove_nopool", "wk_add_std", "wk_swap_lpt", "wk_swap_nopool",
+                         "wk_swap_equal", "wk_swap_held", "wk_untracked", "role_no_share"]
 
 CS_ASSUME = ["TLC 1.8, SANY, CommunityModules Json", "Go toolchain, cosmos-sdk x/bank, x/auth",
              "harness projection functions (balances, supplies, pool registry, params read from the stores)",
@@ -45,14 +63,14 @@ PROPS = {
     "C01": ModuleCheck("coinswap", "Coinswap.tla", "CoinswapTrace.tla", "CoinswapTrace.cfg", CS_CLAUSES_C01,
                        CS_MC_C01, CS_GEN, CS_RND, scenarios=CS_SCN,
                        required=["sell_1", "buy_1", "sell_2", "buy_2", "add_create", "add_funded", "add_refund_empty",
-                                 "remove_ok", "remove_all", "adduni_ok", "remuni_ok", "donate_ok", "reject"],
+                                 "remove_ok", "remove_all", "adduni_ok", "remuni_ok", "donate_ok", "reject"] + CS_WK_C01,
                        gen_cfg=CS_GEN_CFG, assumptions=CS_ASSUME),
     "C02": ModuleCheck("coinswap", "Coinswap.tla", "CoinswapTrace.tla", "CoinswapTrace.cfg", CS_CLAUSES_C02,
                        CS_MC_C02, CS_GEN, CS_RND, scenarios=CS_SCN,
                        required=["sell_1", "buy_1", "sell_2", "buy_2", "swap_third", "swap_third_2", "add_create",
                                  "add_funded", "remove_ok", "adduni_ok", "remuni_ok", "reject", "panic",
                                  "deadline_edge", "deadline_rej", "bound_edge", "bound_rej", "blocked_rej",
-                                 "to_module", "sandwich", "route_skewed"],
+                                 "to_module", "sandwich", "route_skewed"] + CS_WK_C02,
                        gen_cfg=CS_GEN_CFG, assumptions=CS_ASSUME),
 }
 
@@ -67,7 +85,13 @@ TEXT = {
              "universe; it then generates behaviours that are executed on the real application (real ABCI path) "
              "together with seeded random histories (bounds at computed value +-1, three fee settings); every "
              "event of every real trace is validated by TLC against the clauses (verdict; legs are reconstructed "
-             "from the pools' balance deltas) and against the specification's own step function (drift).",
+             "from the pools' balance deltas) and against the specification's own step function (drift). Negative "
+             "probing: a second generator mode ends every behaviour with a tail of messages the specification rejects "
+             "(every message type, every denom-valued field drawn from every kind of denom - foreign token, another "
+             "pool's share denom, an ordinary coin shaped like a share denom, the standard coin, strange denoms - "
+             "every role), the random driver does the same at random and sends foreign coins and share tokens to the "
+             "escrows; the driver's closing operations (withdraw everything, probe the emptied pools, re-fund) are "
+             "computed from the real chain state.",
         note="Trusted: TLC/SANY/CommunityModules Json, Go toolchain, cosmos-sdk bank, the harness projection. Fees are "
              "rationals with denominators dividing 10^18 so the model's floor divisions are bit-exact; reserves, "
              "supplies and amounts stay below ~100 so that quartic products fit TLC's 32-bit integers; the 2^128 "
@@ -81,7 +105,10 @@ TEXT = {
              "messages take at most the maxima / give at least the minima with mint = supply delta = sender delta, "
              "supplies change only for the message's own liquidity token and the burned share of the creation "
              "fee, conservation of every denom over the closed universe, rejected messages (including recovered "
-             "panics) change nothing.",
+             "panics) change nothing. The balance sheet and the supply table include an odd coin (voucher-1: an "
+             "ordinary coin whose denom parses as a liquidity denom) and the liquidity denom / escrow of the pool "
+             "that may be opened on it, so burning or paying out a coin of the wrong kind is seen by the supply and "
+             "frame clauses; negative probing as for C01.",
         note="As C01. Finding F1 (routed orders with recipient != sender moved the intermediate standard coin from the "
              "sender to the recipient) was fixed in /repo (1430e57); the specification follows the fixed code and "
              "C02_Frame is checked unmasked; scenarios/coinswap_F1.ndjson stays as a regression. Diagnostic clauses "
